@@ -355,30 +355,65 @@ impl Prop for C14 {
             use raw::{Abstract, AbstractPort, Cell, Layer, LayerPurpose, Layers, Point, Polygon, Rect};
             cx.eval();
             let num = cx.rng.range(1, 200) as i16;
-            let (pin_a, pin_b) = (cx.rng.range(1, 30) as i16, cx.rng.range(31, 60) as i16);
-            cx.nontrivial(((num as u64) << 16) ^ ((pin_a as u64) << 8) ^ pin_b as u64);
+            // two, three or four layers on ONE layer number (met1 / via / met1res ... 68/x), each with a pin purpose number of its own,
+            // defined in a shuffled order; the port has one rectangle on each of them
+            let k = 2 + cx.rng.usize(3);
+            let mut pins: Vec<i16> = Vec::new();
+            while pins.len() < k {
+                let q = cx.rng.range(1, 60) as i16;
+                if !pins.contains(&q) {
+                    pins.push(q);
+                }
+            }
+            let (pin_a, pin_b) = (pins[0], pins[1]);
+            let salt = cx.rng.below(1 << 20);
+            cx.nontrivial(((num as u64) << 24) ^ ((pin_a as u64) << 16) ^ ((pin_b as u64) << 8) ^ k as u64 ^ (salt << 32));
             let mut layers = Layers::default();
-            let ka = layers.add(Layer::new(num, "met1").add_pairs(&[(0, LayerPurpose::Drawing), (pin_a, LayerPurpose::Pin), (61, LayerPurpose::Obstruction)]).unwrap());
-            let kb = layers.add(Layer::new(num, "via").add_pairs(&[(1, LayerPurpose::Drawing), (pin_b, LayerPurpose::Pin), (62, LayerPurpose::Obstruction)]).unwrap());
+            let mut keys = Vec::new();
+            for (i, pin) in pins.iter().enumerate() {
+                let name = ["met1", "via", "met1res", "met1fill"][i];
+                keys.push(layers.add(Layer::new(num, name).add_pairs(&[(100 + i as i16, LayerPurpose::Drawing), (*pin, LayerPurpose::Pin), (61 + i as i16, LayerPurpose::Obstruction)]).unwrap()));
+            }
             let mut lib = Library::new("split", raw::Units::Nano);
             lib.layers = raw::utils::Ptr::new(layers);
             let mut abs = Abstract::new("cellA", Polygon { points: vec![Point::new(0, 0), Point::new(100, 0), Point::new(100, 100), Point::new(0, 100)] });
             let mut port = AbstractPort::new("p");
-            port.shapes.insert(ka, vec![Shape::Rect(Rect { p0: Point::new(1, 1), p1: Point::new(9, 9) })]);
-            port.shapes.insert(kb, vec![Shape::Rect(Rect { p0: Point::new(21, 21), p1: Point::new(29, 29) })]);
+            let rect_of = |i: usize| Shape::Rect(Rect { p0: Point::new(1 + 20 * i as isize, 1), p1: Point::new(9 + 20 * i as isize, 9) });
+            let mut order: Vec<usize> = (0..k).collect();
+            cx.rng.shuffle(&mut order);
+            for &i in &order {
+                port.shapes.insert(keys[i], vec![rect_of(i)]);
+            }
             abs.ports.push(port);
             lib.cells.add(Cell::from(abs));
             let r = guard(|| -> Result<usize, String> {
                 let p = lib.to_proto().map_err(|e| format!("export: {:?}", e))?;
-                let back = Library::from_proto(p, Some(lib.layers.clone())).map_err(|e| format!("import: {:?}", e))?;
-                let c = back.cells[0].read().unwrap();
-                Ok(c.abs.as_ref().map(|a| a.ports.iter().map(|p| p.shapes.values().map(|v| v.len()).sum::<usize>()).sum()).unwrap_or(0))
+                let back = Library::from_proto(p.clone(), Some(lib.layers.clone())).map_err(|e| format!("import: {:?}", e))?;
+                let n = {
+                    let c = back.cells[0].read().unwrap();
+                    let a = c.abs.as_ref().ok_or("no abstract")?;
+                    // every rectangle back under the key of ITS layer
+                    for i in 0..k {
+                        let here = a.ports.iter().any(|p| p.shapes.get(&keys[i]).map_or(false, |v| v.iter().any(|s| format!("{:?}", s) == format!("{:?}", rect_of(i)))));
+                        if !here {
+                            return Err(format!("WRONG-LAYER: the rectangle of layer {} of {} (pin number {}) is not under that layer's key after the trip", i, k, pins[i]));
+                        }
+                    }
+                    a.ports.iter().map(|p| p.shapes.values().map(|v| v.len()).sum::<usize>()).sum()
+                };
+                let p2 = back.to_proto().map_err(|e| format!("re-export: {:?}", e))?;
+                if p2 != p {
+                    return Err("RE-EXPORT-DIFFERS: the imported library does not export to the same message".to_string());
+                }
+                Ok(n)
             });
             match r {
                 Err(c) => cx.violation(&format!("split-layer-abstract|panic|{}", c.norm_msg()), json!({"panic": c.msg})),
+                Ok(Err(e)) if e.starts_with("WRONG-LAYER") => cx.violation("split-layer-abstract|port-shape-on-the-wrong-layer", json!({"what": e, "layer_number": num, "pin_numbers": pins})),
+                Ok(Err(e)) if e.starts_with("RE-EXPORT") => cx.violation("split-layer-abstract|re-export-differs", json!({"what": e, "layer_number": num, "pin_numbers": pins})),
                 Ok(Err(e)) => cx.violation("split-layer-abstract|error", json!({"error": e.chars().take(300).collect::<String>()})),
-                Ok(Ok(2)) => cx.count("split_layer_abstract_ports_preserved"),
-                Ok(Ok(n)) => cx.violation("split-layer-abstract|port-shapes-lost", json!({"layer_number": num, "pin_numbers": [pin_a, pin_b], "port_shapes_exported": 2, "port_shapes_after_the_trip": n})),
+                Ok(Ok(n)) if n == k => cx.count("split_layer_abstract_ports_preserved"),
+                Ok(Ok(n)) => cx.violation("split-layer-abstract|port-shapes-lost", json!({"layer_number": num, "pin_numbers": pins, "port_shapes_exported": k, "port_shapes_after_the_trip": n})),
             }
             return;
         }
